@@ -104,10 +104,9 @@ class PiecewisePolynomialKernel(Kernel):
     def forward(self, x1: Tensor, x2: Tensor, last_dim_is_batch: bool = False, diag: bool = False, **params) -> Tensor:
         x1_ = x1.div(self.lengthscale)
         x2_ = x2.div(self.lengthscale)
-        if last_dim_is_batch is True:
-            D = x1.shape[1]
-        else:
-            D = x1.shape[-1]
+        # the number of input dimensions (x1 is `... x n x d`, also with last_dim_is_batch; `x1.shape[1]` is the number of
+        # points `n` as soon as x1 has a batch dimension)
+        D = x1.shape[-1]
         j = math.floor(D / 2.0) + self.q + 1
         if last_dim_is_batch and diag:
             r = self.covar_dist(x1_, x2_, last_dim_is_batch=True, diag=True)
